@@ -349,6 +349,12 @@ func k1ChainMethod(p *Prog, fn *ssa.Function, m string, chainKey string) string 
 					appended = true
 				}
 			}
+			// or it is stored into the element of a pre-sized slice at the loop index
+			if st, ok := in.(*ssa.Store); ok && p.origin(st.Val) == ssa.Value(call) {
+				if ia, ok := st.Addr.(*ssa.IndexAddr); ok && ia.Index == loop.Index {
+					appended = true
+				}
+			}
 		}
 		if !appended {
 			return "a member's Close error is not appended unconditionally"
